@@ -3,8 +3,9 @@ code points decoded by a symbolic RFC 4180 field reader."""
 import re, json
 import z3
 from .lib import *
+from .mirsym import Const
 from .report import Candidate, Broken
-from .fmt import calibrate, fmt_summaries, Tok
+from .fmt import calibrate, fmt_summaries, Tok, unescape_bytes
 from .scen_parser import utf8_cases, PC, Ref
 from .scen_print import base_summaries, s_chars
 
@@ -140,6 +141,13 @@ def text_layout(ctx):
         exp_h = ', '.join(f'"c{i}"' for i in range(max(n, 1))); exp_r = ', '.join(str(i) if i != 1 else '' for i in range(max(n, 1)))
         c.replay = {'argv': ['-o', 'csv'] + sels, 'stdin': row, 'expected': [exp_h, exp_r, ''], 'actual': lines}
         c.status = 'reproduced' if lines != [exp_h, exp_r, ''] else 'unit'
+        if c.status != 'reproduced' and c.role.startswith(('header', 'start')):
+            # names go through the same field printer as values: a name with a quote / a configured escape
+            for argv, stdin, exp in ((['-o', 'csv', '--select', '.a=x"y', '--select', '.b=p,q'], '{"a":1,"b":2}', ['"x""y", "p,q"', '1, 2', '']),
+                                     (['-o', 'text', '--headers', '--escape-sequance', 'y<Y>', '--select', '.a=xyz'], '{"a":1}', ['x<Y>z', '1', ''])):
+                r = run_jawk(ctx, argv, stdin.encode()); lines = show(r['stdout']).split('\n')
+                if lines != exp:
+                    c.replay = {'argv': argv, 'stdin': stdin, 'expected': exp, 'actual': lines}; c.status = 'reproduced'; break
 
 
 # ---------------------------------------------------------------- csv quoting
@@ -253,3 +261,124 @@ def csv_quoting(ctx):
                 if show(r2['stdout']) != exp:
                     c.replay = {'argv': argv, 'stdin': json.dumps(value), 'expected': exp, 'actual': show(r2['stdout'])}; c.status = 'reproduced'; break
             if c.status != 'reproduced' and c.role == 'opaque-output': c.status = 'unit'
+
+
+# ---------------------------------------------------------------- the csv preset and the escape table built from it
+CSV_PRESET = {'items_seperator': b', ', 'string_prefix': b'"', 'string_postfix': b'"', 'headers': True, 'escape_sequance': [b'"""'], 'null_keyword': b'null', 'true_keyword': b'True', 'false_keyword': b'False',
+              'missing_value_keyword': None}
+
+
+def text_presets(ctx):
+    """(a) TextOutputOptions::csv() is the RFC 4180 dialect the property names; (b) From<TextOutputOptions> for
+    TextPrinter turns every escape entry `cREST` into table[c] = REST (an entry of one character deletes it), for every
+    ASCII entry of 0..3 bytes; (a)+(b) give the table {'"': '""'} that text.csv_string assumes."""
+    run = ctx.run
+    fam = run.family('text.csv_preset', 'csv() = `, ` separated, strings in `"` with `"` doubled, header row, null/True/False, absent = empty; the printer\'s escape table maps the first character of every --escape-sequance entry to the rest of the entry')
+    NB = 3 if ctx.quick else 4
+    run.bounds['text presets'] = f'csv(): all fields; escape table: 1..2 entries of 0..{NB} free ASCII bytes each (single-byte escape characters, as the property states)'
+    TO = ctx.structs['TextOutputOptions']; TPR = ctx.structs['TextPrinter']
+
+    def s_to_string(ex, st, func, args, ty):
+        a = args[0]
+        if isinstance(a, Const): return [(st, seqobj(st, 'String', [BV(bv8(x)) for x in unescape_bytes(a.text)]))]
+        o = obj(st, a)
+        if isinstance(o, ObjV) and 'model' in st.heap[o.oid]: return [(st, seqobj(st, 'String', model(st, o)))]
+        return None
+    def s_chars(ex, st, func, args, ty): return [(st, seqobj(st, 'CharIter', [BV(z3.ZeroExt(24, b.t)) for b in model(st, args[0])]))]
+    def s_map_new(ex, st, func, args, ty): return [(st, seqobj(st, 'Map', ()))]
+    def s_capacity(ex, st, func, args, ty): return [(st, BV(z3.BitVec(st.fresh_name('capacity'), 64)))]
+    def s_insert(ex, st, func, args, ty):
+        mo = obj(st, args[0]); k = args[1]; v = args[2]
+        st.heap[mo.oid]['model'] = tuple(st.heap[mo.oid]['model']) + ((k, v),)
+        st.events.append(('insert', k.t, tuple(b.t for b in model(st, v))))
+        return [(st, none(st))]
+    from .scen_kernels import s_str_index, PANICS
+    summ = [(r'<str as ToString>::to_string$|<std::string::String as Clone>::clone$', s_to_string), (r'impl str>::chars$', s_chars), (r'<Chars<.*> as Iterator>::next$', s_iter_next),
+            (r'HashMap::<.*>::with_capacity$|HashMap::<.*>::new$', s_map_new), (r'Vec::<.*>::capacity$|Vec::<.*>::len$', s_capacity), (r'HashMap::<.*>::insert$', s_insert),
+            (r'<&Vec<.*> as IntoIterator>::into_iter$|impl \[.*\]>::iter$', s_iter_ref), (r'<std::slice::Iter<.*> as Iterator>::next$', s_iter_next),
+            (r'<std::string::String as Index<.*>>::index$|<str as Index<.*>>::index$', s_str_index), (r'<std::string::String as Deref>::deref$|String::as_str$', s_identity)]
+    ex = ctx.exec(summaries=summ, max_visits=16)
+    # (a) the preset
+    F = ex.find(r'^output_style::<impl at [^>]*>::csv$')
+    st = State(); ex.new_frame(st, F, [])
+    preset_escapes = None
+    for d in ex.run(st):
+        if d.status == 'infeasible': continue
+        run.paths += 1; fam.paths += 1
+        hav = (d.havoc or [None])[0]
+        got = {}
+        if d.status == 'returned':
+            r = obj(d, d.ret)
+            for name, want in CSV_PRESET.items():
+                v = d.heap[r.oid].get(('f', None, TO.index(name)))
+                def text(o):
+                    o = obj(d, o)
+                    if not isinstance(o, ObjV) or 'model' not in d.heap[o.oid]: return '?'
+                    vals = [cval(b.t) for b in d.heap[o.oid]['model']]
+                    return bytes(vals) if all(x is not None for x in vals) else '?'
+                if isinstance(want, bool): got[name] = cval(v.t) == 1 if isinstance(v, BoolV) else '?'
+                elif want is None: got[name] = None if isinstance(v, ObjV) and cval(ex.discr(d, v).t) == 0 else '?'
+                elif isinstance(want, list):
+                    vo = obj(d, v); got[name] = [text(x) for x in d.heap[vo.oid]['model']] if isinstance(vo, ObjV) and 'model' in d.heap[vo.oid] else '?'
+                else: got[name] = text(v)
+        for name, want in CSV_PRESET.items():
+            fam.obligations += 1; fam.witnesses += 1
+            if got.get(name, '?') == want: fam.discharged += 1
+            else: fam.candidates.append(Candidate(fam.name, f'csv-preset:{name}', f'TextOutputOptions::csv(): {name} is {got.get(name, d.status)!r}, the csv dialect of the property needs {want!r}', {'field': name}, unmodelled=hav))
+        preset_escapes = got.get('escape_sequance')
+        fam.add_sample({'csv()': {k: (v.decode() if isinstance(v, bytes) else [x.decode() if isinstance(x, bytes) else x for x in v] if isinstance(v, list) else v) for k, v in got.items()}, 'verdict': 'the dialect the property names'})
+    # (b) the table
+    F2 = [f for n, f in ctx.fns.items() if re.match(r'^output_style::<impl at [^>]*>::from$', n) and 'TextOutputOptions' in f.params[0][1]]
+    if len(F2) != 1: raise Broken('From<TextOutputOptions> for TextPrinter not found')
+    shapes = [(n,) for n in range(NB + 1)] + [(1, 2), (3, 0), (2, 2)]
+    for lens in shapes:
+        st = State(); op = st.new_obj('options', 'TextOutputOptions')
+        entries = []
+        for i, n in enumerate(lens):
+            bs = [z3.BitVec(f'e{i}_{j}', 8) for j in range(n)]
+            for b in bs: st.pc.append(z3.ULT(b, 0x80))
+            entries.append(bs)
+        st.heap[op][('f', None, TO.index('escape_sequance'))] = seqobj(st, 'Vec', [seqobj(st, 'String', [BV(b) for b in bs]) for bs in entries])
+        PANICS.clear()
+        ex.new_frame(st, F2[0], [ObjV(op)])
+        for d in ex.run(st) + list(PANICS):
+            if d.status == 'infeasible': continue
+            run.paths += 1; fam.paths += 1; fam.obligations += 1; fam.witnesses += 1
+            hav = (d.havoc or [None])[0]
+            ins = [e for e in d.events if e[0] == 'insert']
+            want = [(bs[0], bs[1:]) for bs in entries if bs]
+            good = d.status == 'returned' and len(ins) == len(want)
+            m = None
+            if good:
+                conj = []
+                for (_, k, v), (wk, wv) in zip(ins, want):
+                    if len(v) != len(wv): good = False; break
+                    conj += [k == z3.ZeroExt(24, wk)] + [a == b for a, b in zip(v, wv)]
+                if good:
+                    good, m = ex.valid(d, z3.And(*conj) if conj else z3.BoolVal(True))
+            if good and d.status == 'returned':
+                # the table ends up in the printer
+                r = obj(d, d.ret); t = obj(d, d.heap[r.oid].get(('f', None, TPR.index('escape_sequandes'))))
+                good = isinstance(t, ObjV) and len(d.heap[t.oid].get('model', ())) == len(want)
+            if good:
+                fam.discharged += 1
+                if lens == (1, 2): fam.add_sample({'entries': 'c | cR', 'table': '[c -> "", c -> R]', 'verdict': 'for every ASCII c, R'})
+            else:
+                if m is None: _, m = ex.valid(d, z3.BoolVal(False))
+                ev = [bytes(m.eval(b, True).as_long() for b in bs).decode('latin-1') for bs in entries] if m is not None else []
+                fam.candidates.append(Candidate(fam.name, 'escape-table', f'TextPrinter::from with escape entries {ev!r}: {d.status}, inserts {len(ins)} entries, expected {len(want)} (first character -> rest)' + (f' {d.notes[-1:]}' if d.status != 'returned' else ''),
+                                                {'entries': ev}, unmodelled=hav))
+    # (a)+(b)
+    fam.obligations += 1; fam.witnesses += 1
+    if preset_escapes == [b'"""']: fam.discharged += 1
+    run.absorb(ex)
+    seen = set(); fam.candidates = [c for c in fam.candidates if not (c.role in seen or seen.add(c.role))]
+    from .cli import run_jawk, show
+    for c in fam.candidates:
+        demos = [(['-o', 'csv', '--select', '.a=a', '--select', '.b=b', '--select', '.c=c', '--select', '.d=d', '--select', '.e=e'], '{"a":"x\\"y","b":null,"c":true,"d":false}', ['"a", "b", "c", "d", "e"', '"x""y", null, True, False, ', '']),
+                 (['-o', 'text', '--escape-sequance', '\t', '--select', '.a=a'], '{"a":"p\\tq"}', ['pq', '']), (['-o', 'text', '--escape-sequance', ';\;', '--escape-sequance', 'z', '--select', '.a=a'], '{"a":"a;bzc"}', ['a\;bc', ''])]
+        c.status = 'unit' if not c.unmodelled else 'not-reproduced'
+        for argv, stdin, exp in demos:
+            r = run_jawk(ctx, argv, stdin.encode()); lines = show(r['stdout']).split('\n')
+            if lines != exp:
+                c.replay = {'argv': argv, 'stdin': stdin, 'expected': exp, 'actual': lines}; c.status = 'reproduced'; break
